@@ -486,14 +486,15 @@ def run_check(pid, tier, seed):
         else:
             new_viol.append(v)
     # known findings that are derived refutations (no failing obligation): printed when their witness check passes
-    os.makedirs(os.path.join(VERIF, "replay", "out"), exist_ok=True)
+    OUT = os.environ.get("VERIF_OUT_DIR") or VERIF      # seedtool redirects evidence/replay files of mutant runs
+    os.makedirs(os.path.join(OUT, "replay", "out"), exist_ok=True)
     out_lines = []
     seen = set()
     for v in new_viol:
         if v["obligation"] in seen:
             continue
         seen.add(v["obligation"])
-        rp = os.path.join(VERIF, "replay", "out", "%s-%s.json" % (pid, hashlib.sha1(v["obligation"].encode()).hexdigest()[:10]))
+        rp = os.path.join(OUT, "replay", "out", "%s-%s.json" % (pid, hashlib.sha1(v["obligation"].encode()).hexdigest()[:10]))
         json.dump({"property": pid, "obligation": v["obligation"], "function": v.get("fn"), "kind": v.get("kind"),
                    "failed_clause": v.get("clause"), "source": v.get("src"), "verifier_message": v.get("text"),
                    "verifier_output": v.get("rendered"), "input": v.get("input"),
@@ -523,8 +524,8 @@ def run_check(pid, tier, seed):
         "wall_s": round(wall, 2),
         "violations": len(out_lines),
     }
-    os.makedirs(os.path.join(VERIF, "evidence"), exist_ok=True)
-    json.dump(ev, open(os.path.join(VERIF, "evidence", pid + ".json"), "w"), indent=1)
+    os.makedirs(os.path.join(OUT, "evidence"), exist_ok=True)
+    json.dump(ev, open(os.path.join(OUT, "evidence", pid + ".json"), "w"), indent=1)
     for l in known_lines:
         print(l)
     for l in out_lines:
